@@ -59,6 +59,31 @@ def cli_args(cmd, accts, flags, DT):
         return ofxget.merge_config(ns, cfg)
 
 
+def file_args(cmd, accts, flags, DT, seed):
+    """the same configuration as it arrives from the user's configuration file (accounts listed there in any of the spellings a
+    hand-edited file has: 'a,b'  'a, b'  'a ,b'  ' a , b '), the rest from the real command line"""
+    from ofxtools.scripts import ofxget
+    rng = random.Random(seed)
+    lines = ["[mybank]", "url = https://ofx.example.com", "user = porkypig", "bankid = B-1", "brokerid = BR-2"]
+    for t, vs in accts.items():
+        if vs:
+            sep = rng.choice([",", ", ", " ,", " , ", ",  "])
+            lines.append(f"{t} = {rng.choice(['', ' '])}{sep.join(vs)}{rng.choice(['', ' '])}")
+    argv = [{"request_stmt": "stmt", "request_stmtend": "stmtend"}[cmd], "mybank", "--dryrun", "-s", DT["dtstart"], "-e", DT["dtend"]]
+    if cmd == "request_stmt":
+        argv += ["-a", DT["dtasof"]]
+        for fl, sw in (("inctran", "--no-transactions"), ("incpos", "--no-positions"), ("incbal", "--no-balances")):
+            if not flags.get(fl, True):
+                argv.append(sw)
+        if flags.get("incoo"):
+            argv.append("--open-orders")
+    ns = ofxget.make_argparser().parse_args(argv)
+    cfg = ofxget.UserConfig()
+    cfg.read_string("\n".join(lines) + "\n")
+    with patch("builtins.print"):
+        return ofxget.merge_config(ns, cfg)
+
+
 def check_configured(it, fn, a):
     cmd, accts, flags, seed = a
     from ofxtools.Types import DateTime
@@ -74,10 +99,12 @@ def check_configured(it, fn, a):
             args, cap = run_command(cmd, cli)
         else:
             try:
-                merged = cli_args(cmd, accts, flags, DT)
+                # account numbers that a configuration file can hold: no comma inside a number
+                from_file = seed % 4 == 3 and not any("," in v or v != v.strip() for vs in accts.values() for v in vs)
+                merged = file_args(cmd, accts, flags, DT, seed) if from_file else cli_args(cmd, accts, flags, DT)
             except SystemExit as ex:
                 raise RuntimeError(f"harness: the real argument parser refused the generated command line ({ex})")
-            args, cap = run_command(cmd, {} if cmd == "request_stmt" else {"brokerid": "BR-2", **({"investment": list(accts["investment"])} if "investment" in accts else {})}, merged)     # stmtend has no --brokerid option
+            args, cap = run_command(cmd, {} if (cmd == "request_stmt" or from_file) else {"brokerid": "BR-2", **({"investment": list(accts["investment"])} if "investment" in accts else {})}, merged)     # stmtend has no --brokerid option
             flags = {k: args[k] for k in ("inctran", "incoo", "incpos", "incbal")} if cmd == "request_stmt" else flags
             if cmd == "request_stmt":
                 want_flags = {"inctran": a[2].get("inctran", True), "incpos": a[2].get("incpos", True), "incbal": a[2].get("incbal", True), "incoo": bool(a[2].get("incoo"))}
@@ -125,6 +152,12 @@ def check_configured(it, fn, a):
                 for fl, v in got_f.items():
                     if bool(v) != bool(args[fl]):
                         problems.append(f"investment request for {b.invacctfrom.acctid} goes out with {fl}={v}, asked {args[fl]}")
+                # the as-of date asked for goes out whether or not positions are included (balances are as of a date too)
+                got_asof = b.incpos.dtasof if b.incpos is not None else None
+                if got_asof != asof:
+                    problems.append(f"investment request for {b.invacctfrom.acctid} goes out with DTASOF {got_asof}, asked {asof} (incpos={args['incpos']})")
+                if b.inctran is not None and (b.inctran.dtstart != start or b.inctran.dtend != end):
+                    problems.append(f"investment request for {b.invacctfrom.acctid} goes out with dates {b.inctran.dtstart}..{b.inctran.dtend}, asked {start}..{end}")
             for ms, attr, sub in ((ofx.bankmsgsrqv1, "stmtrq", "bankacctfrom"), (ofx.creditcardmsgsrqv1, "ccstmtrq", "ccacctfrom")):
                 for w in (ms or []):
                     b = getattr(w, attr, None)
